@@ -612,6 +612,19 @@ def corr_requests(rng, tier):
         toks = [str(b), str(ts), str(b * spc) if rng.chance(5, 6) else "-", str(fat), str(root) if bits != 32 or rng.chance(1, 2) else "-",
                 str(fats), str(media), str(volid), label]
         out.append((toks, explicit, dev, fill, ranges))
+    # deterministic family: requests the layout search lets through and only the final self-check of the boot sector refuses (zero
+    # root entries on a FAT12/16 volume - by size, by cluster size, by forced width -, sector sizes above 4096), next to their
+    # accepted neighbours (zero root entries on FAT32, 4096-byte sectors): through the REAL format_volume, error kind compared
+    for toks, dev in [
+            (["512", "2048", "-", "-", "0", "2", "-", "-", "-"], 2048 * 512), (["512", "16384", "-", "-", "0", "2", "-", "-", "-"], 16384 * 512),
+            (["512", "81920", "-", "16", "0", "2", "-", "-", "-"], 81920 * 512), (["512", "5000", "512", "16", "0", "1", "-", "-", "-"], 5000 * 512),
+            (["512", "400", "512", "12", "0", "2", "-", "-", "-"], 400 * 512), (["1024", "300", "-", "-", "0", "2", "-", "-", "-"], 300 * 1024),
+            (["512", "70000", "512", "32", "0", "2", "-", "-", "-"], 70000 * 512), (["512", "70000", "512", "-", "0", "2", "-", "-", "-"], 70000 * 512),
+            (["8192", "1000", "-", "-", "-", "2", "-", "-", "-"], 1000 * 8192), (["16384", "5000", "-", "-", "-", "2", "-", "-", "-"], 5000 * 16384),
+            (["32768", "300", "-", "-", "512", "1", "-", "-", "-"], 300 * 32768), (["8192", "9000", "8192", "16", "512", "2", "-", "-", "-"], 9000 * 8192),
+            (["4096", "1000", "-", "-", "-", "2", "-", "-", "-"], 1000 * 4096), (["4096", "9000", "4096", "16", "512", "2", "-", "-", "-"], 9000 * 4096)]:
+        for explicit in (True, False):
+            out.append((toks, explicit, dev, 0, []))
     return out
 
 
@@ -641,7 +654,11 @@ def corr_piece(reqs):
         ekind = "ok" if fr.kind == "ok" else "err " + fr.payload.split(" ")[0]
         mkind = "ok" if mt[0] == "ok" else " ".join(mt[:2]) if mt[0] == "err" else mt[0]
         rec["outcome"] = ekind
-        if ekind != mkind:
+        if fr.kind == "err" and ekind != "err InvalidInput":
+            # direct statement (no storage fault is injected here): a request is refused with the invalid-input error and no other
+            rec["viol"] = "format_volume refuses the request with %s instead of InvalidInput" % fr.payload.split(" ")[0]; rec["nofail"] = False
+            out.append(rec); continue
+        elif ekind != mkind:
             rec["viol"] = "outcome differs: library %s, model %s" % (ekind, mkind)
             out.append(rec); continue
         if pg.kind != "ok":
